@@ -113,8 +113,10 @@ def solve(raw, mip_rel_gap=0.0, time_limit=60.0, maximize_value=True):
     integrality = np.zeros(n)
     integrality[raw.bools] = 1
     raw = raw.copy()
-    raw.l[raw.bools] = np.maximum(raw.l[raw.bools], 0.0)
-    raw.u[raw.bools] = np.minimum(raw.u[raw.bools], 1.0)
+    # bounds of integer variables are tightened to integers here: given a fractional upper bound such as
+    # 0.75 the HiGHS build of scipy 1.14.1 (presolve off) returned x = 0 with status optimal for max x1 + x2
+    raw.l[raw.bools] = np.ceil(np.maximum(raw.l[raw.bools], 0.0) - 1e-9)
+    raw.u[raw.bools] = np.floor(np.minimum(raw.u[raw.bools], 1.0) + 1e-9)
     if np.any(raw.l > raw.u + 1e-12):
         return "infeasible", None, None
     cons = []
@@ -206,3 +208,45 @@ def tight_classes(raw, x, tol=1e-6):
         if m.any() and (d[m] <= tol * (1 + np.abs(raw.b[m]))).any():
             out.add(k)
     return out
+
+
+def solve_enum(raw, max_bools=12):
+    """Exact optimum of a small MIP by enumerating all 0/1 assignments of its boolean variables and
+    solving an LP for each (second opinion when EAO and milp disagree: the HiGHS build in scipy
+    1.14.1 has returned infeasible / sub-optimal answers on small MIPs).  None if too many booleans."""
+    import itertools
+    k = len(raw.bools)
+    if k == 0 or k > max_bools:
+        return None
+    best = ("infeasible", None, None)
+    for pat in itertools.product([0.0, 1.0], repeat=k):
+        r = raw.copy()
+        pat = np.array(pat)
+        if np.any(pat < r.l[r.bools] - 1e-12) or np.any(pat > r.u[r.bools] + 1e-12):
+            continue
+        r.l[r.bools] = pat
+        r.u[r.bools] = pat
+        r.bools = []
+        st, x, v = solve(r)
+        if st == "optimal" and (best[2] is None or v > best[2]):
+            best = (st, x, v)
+    return best
+
+
+def second_opinion(raw, x_ref, v_ref, x, val, tv, tf):
+    """EAO's value `val` (solution x) and milp's optimum v_ref differ by more than tv on a MIP.  Returns
+    (v_ref or None, label): exact enumeration when the problem is small; otherwise whichever of the two
+    solutions is a feasibility witness against the other decides (None = the reference is the one that is
+    wrong or unverifiable, no verdict)."""
+    second = solve_enum(raw)
+    if second is not None and second[0] == "optimal":
+        return second[2], ("milp_reference_corrected_by_enumeration" if abs(second[2] - v_ref) > tv else None)
+    if val > v_ref + tv:
+        worst, _ = residual(raw, x, tol_int=True)
+        if worst <= tf:
+            return None, "milp_reference_suboptimal"      # x is feasible and better than the reference 'optimum'
+        return v_ref, None
+    worst, _ = residual(raw, x_ref, tol_int=True)
+    if worst > tf:
+        return None, "milp_reference_infeasible_point"
+    return v_ref, None
